@@ -46,7 +46,7 @@ package cryptoutil
 //@   for C05, C06, C11
 //@   safety
 //@   requires privKey != nil && pubKey != nil
-//@   ensures [C05.e2c] ret2 == nil ==> ret0 != nil && ret1 != nil && bytes(ret0) == e2c_priv(skv(privKey)) && bytes(ret1) == e2c_pub(pkv(pubKey)) && ret0 != ret1
+//@   ensures [C05.e2c] ret2 == nil ==> ret0 != nil && ret1 != nil && fresh(ret0) && fresh(ret1) && bytes(ret0) == e2c_priv(skv(privKey)) && bytes(ret1) == e2c_pub(pkv(pubKey)) && ret0 != ret1
 //@   ensures [C05.e2c.type] keytype(privKey) != 1 || keytype(pubKey) != 1 ==> ret2 != nil
 
 //@ func SeedFromEd25519PrivateKey
@@ -55,3 +55,8 @@ package cryptoutil
 //@   requires key != nil
 //@   ensures [C11.seed] ret1 == nil ==> keytype(key) == 1 && blen(skv(key)) == 64 && len(ret0) == 32 && bytes(ret0) == bslice(skv(key), 0, 32)
 //@   ensures [C11.seed.type] keytype(key) != 1 ==> ret1 != nil
+
+//@ # variadic concatenation followed by sha256.Sum256: trusted against the symbolic hash (two-argument form used by the handshake)
+//@ trusted func ConcatAndHashSha256
+//@   ensures result != nil && fresh(result)
+//@   ensures len(slices) == 2 ==> bytes(result) == sha256v(bcat(bytes(slices[0]), bytes(slices[1])))
